@@ -29,6 +29,9 @@ Next ==
     \/ \E c \in Costs, m \in Mults, p \in BOOLEAN, e \in BOOLEAN :
           /\ Converge(c, m, p, e)
           /\ result' = c /\ lastAcc' = TRUE
+    \/ \E m \in Mults, p \in BOOLEAN, e \in BOOLEAN :
+          /\ ConvergeAtBest(m, p, e)
+          /\ result' = best /\ lastAcc' = FALSE
     \/ \E better \in BOOLEAN, c \in Costs, m \in Mults :
           /\ LimitHit(Limit, better, c, m)
           /\ result' = result /\ lastAcc' = better
@@ -57,8 +60,8 @@ MultFloorInv == MultAtLeastFloor
 (* the best cost never increases; a reject leaves it alone *)
 BestMonotone == [][BestMonotoneStep]_vars
 
-(* success returns the best point, and only after an accepted step *)
-ResultIsBest == (outcome = "ok") => (havebest /\ result = best /\ lastAcc)
+(* success returns the best point (there is one) *)
+ResultIsBest == (outcome = "ok") => (havebest /\ result = best)
 
 (* nothing is returned on failure *)
 FailureReturnsNothing == (outcome # "ok") => result = Top
